@@ -415,9 +415,12 @@ fn c13_case(c: &EngCase, st: &mut Stats) -> Result<(), String> {
     let tf = ThreeFold::new();
     let pa = profile(&s.board, &tf, CAP, 4, false).map_err(|e| format!("C13 {}", search_err(e, &fen, CAP)))?;
     let pb = profile(&mb, &tf, CAP, 4, false).map_err(|e| format!("C13 {}", search_err(e, &mp.fen(), CAP)))?;
-    if pa.observer_missing || pb.observer_missing {
+    if (pa.observer_missing && !pa.boundaries_by_bisection) || (pb.observer_missing && !pb.boundaries_by_bisection) {
         st.class("pass boundaries unavailable");
         return Ok(());
+    }
+    if pa.boundaries_by_bisection {
+        st.class("pass boundaries recovered by bisection (the 'start depth' log line is missing)");
     }
     let depths = pa.starts.len().min(pb.starts.len());
     // depth d is complete in both iff both have a start for pass d+1
